@@ -51,6 +51,8 @@ impl LuaCompilation {
     }
 
     pub fn update_index(&mut self, file_ids: Vec<FileId>) {
+        #[cfg(emmyluals_emmylua_analyzer_rust_verif)]
+        crate::verif_c11::record_update_order(&file_ids);
         let mut need_analyzed_files = vec![];
         for file_id in file_ids {
             let tree = match self.db.get_vfs().get_syntax_tree(&file_id) {
